@@ -280,6 +280,11 @@ Section LexSP.
   Definition sptrees_all (g : graph) (wts : list W) : lx_result (list sp_tree) := lx_all g wts (seq 0 (nv g)).
 End LexSP.
 
+Arguments l_dist {W}.  Arguments l_cnt {W}.  Arguments l_set {W}.
+Arguments lx_lex {W}.  Arguments lx_dist {W}.  Arguments lx_pred {W}.  Arguments lx_heap {W}.
+Arguments sn_weight {W}.  Arguments sn_pred {W}.  Arguments sn_children {W}.
+Arguments st_src {W}.  Arguments st_nodes {W}.  Arguments st_first {W}.
+
 (* the exact-domain instance *)
 Definition sptree_Z := sptree Z 0%Z Z.add Z.ltb.
 Definition sptrees_all_Z := sptrees_all Z 0%Z Z.add Z.ltb.
